@@ -69,6 +69,7 @@ type c10Resp struct {
 	Fault       string `json:"fault,omitempty"` // close-on-accept | reset-on-accept | close-after-request | reset-after-headers
 	Location    string `json:"location,omitempty"`
 	APIVersion  string `json:"api_version_header,omitempty"`
+	KeepAlive   bool   `json:"keep_alive,omitempty"` // HTTP/1.1 persistent connection: the server does not close after the response
 	body        []byte
 	hdrDelay    time.Duration
 	pieceDelay  time.Duration
@@ -134,6 +135,13 @@ func (s *c10Server) handle(raw *simnet.TCPConn, rec *simnet.ConnRec) {
 		}
 		conn = tc
 	}
+	for s.serveOne(raw, conn, rec) {
+	}
+}
+
+// serveOne handles one request on the connection; it returns true when the connection is kept
+// alive for a further request (the response was complete and announced no close).
+func (s *c10Server) serveOne(raw *simnet.TCPConn, conn net.Conn, rec *simnet.ConnRec) bool {
 	// read the request head
 	var head []byte
 	buf := make([]byte, 1)
@@ -144,13 +152,13 @@ func (s *c10Server) handle(raw *simnet.TCPConn, rec *simnet.ConnRec) {
 		}
 		if err != nil {
 			rec.Note("request read: " + err.Error())
-			return
+			return false
 		}
 	}
 	line := strings.SplitN(string(head), "\r\n", 2)[0]
 	parts := strings.Fields(line)
 	if len(parts) < 2 {
-		return
+		return false
 	}
 	rq := &c10Req{Method: parts[0], Path: parts[1], T: s.run.Now(), Conn: rec.ID}
 	rs := s.route(rq.Method, rq.Path)
@@ -159,11 +167,11 @@ func (s *c10Server) handle(raw *simnet.TCPConn, rec *simnet.ConnRec) {
 	block := func() { io.Copy(io.Discard, conn) }
 	if rs == nil {
 		conn.Write([]byte("HTTP/1.1 404 Not Found\r\nContent-Length: 0\r\nConnection: close\r\n\r\n"))
-		return
+		return false
 	}
 	if rs.Fault == "close-after-request" {
 		simrt.Fault("http-close-after-request")
-		return
+		return false
 	}
 	if rs.hdrDelay > 0 {
 		time.Sleep(rs.hdrDelay)
@@ -171,7 +179,7 @@ func (s *c10Server) handle(raw *simnet.TCPConn, rec *simnet.ConnRec) {
 	if rs.Stall == "before-headers" {
 		simrt.Fault("http-stall-before-headers")
 		block()
-		return
+		return false
 	}
 	var hb bytes.Buffer
 	fmt.Fprintf(&hb, "HTTP/1.1 %d %s\r\nContent-Type: application/json\r\n", rs.Status, statusText(rs.Status))
@@ -187,29 +195,33 @@ func (s *c10Server) handle(raw *simnet.TCPConn, rec *simnet.ConnRec) {
 	if rs.APIVersion != "" {
 		fmt.Fprintf(&hb, "API-Version: %s\r\nOSType: linux\r\n", rs.APIVersion)
 	}
-	hb.WriteString("Connection: close\r\n\r\n")
+	keep := rs.KeepAlive && rs.Framing != "close"
+	if !keep {
+		hb.WriteString("Connection: close\r\n")
+	}
+	hb.WriteString("\r\n")
 	if rs.Stall == "mid-headers" {
 		simrt.Fault("http-stall-mid-headers")
 		conn.Write(hb.Bytes()[:hb.Len()/2])
 		block()
-		return
+		return false
 	}
 	if _, err := conn.Write(hb.Bytes()); err != nil {
-		return
+		return false
 	}
 	if rs.Fault == "reset-after-headers" {
 		simrt.Fault("http-reset-after-headers")
 		raw.Reset()
-		return
+		return false
 	}
 	if rq.Method == "HEAD" {
 		rq.DoneT = s.run.Now()
-		return
+		return keep
 	}
 	if rs.Stall == "after-headers" {
 		simrt.Fault("http-stall-after-headers")
 		block()
-		return
+		return false
 	}
 	writeBody := func(b []byte) error {
 		if len(b) == 0 {
@@ -236,18 +248,18 @@ func (s *c10Server) handle(raw *simnet.TCPConn, rec *simnet.ConnRec) {
 		if rs.Stall == "mid-body" && i == (n+1)/2 {
 			simrt.Fault("http-stall-mid-body")
 			block()
-			return
+			return false
 		}
 		lo, hi := len(rs.body)*i/n, len(rs.body)*(i+1)/n
 		if err := writeBody(rs.body[lo:hi]); err != nil {
-			return
+			return false
 		}
 	}
 	if rs.Stall == "mid-body" && n == 1 {
 		// single piece: everything but the last byte was... (the whole body went out); stall before the end marker
 		simrt.Fault("http-stall-mid-body")
 		block()
-		return
+		return false
 	}
 	rq.DoneT = s.run.Now()
 	if rs.Endless {
@@ -256,13 +268,14 @@ func (s *c10Server) handle(raw *simnet.TCPConn, rec *simnet.ConnRec) {
 		for {
 			time.Sleep(7 * time.Millisecond)
 			if err := writeBody(filler); err != nil {
-				return
+				return false
 			}
 		}
 	}
 	if rs.Framing == "chunked" {
 		conn.Write([]byte("0\r\n\r\n"))
 	}
+	return keep
 }
 
 // ---- response generators --------------------------------------------------------------------
@@ -324,6 +337,7 @@ func c10GenResp(p picker, label string, kind string, timeout time.Duration, faul
 	r.Status = p.pick(label+".status", 200, 200, 200, 200, 201, 401, 403, 404, 500, 503)
 	r.Framing = []string{"length", "chunked", "close"}[p.n(label+".framing", 3)]
 	r.Pieces = p.pick(label+".pieces", 1, 1, 2, 3, 7)
+	r.KeepAlive = p.bool(label + ".keepalive")
 	// delays: odd nanoseconds so that nothing coincides with a (round) timeout
 	odd := func(lbl string, hi time.Duration) time.Duration {
 		return time.Duration(p.n(lbl, int(hi/2)))*2 + 1
